@@ -15,11 +15,15 @@
 //
 // Comment-bearing bases (comments.go) go through part A: a comment inside a verbatim body and comments
 // directly next to dashed delimiters. Part C repeats part B with whole tags as pieces (runTagSeq).
+//
+// Part D (rep.go, repetition / tag position): a self-contained unit (print tag, if block, for block,
+// comment; every dash placement) repeated k times for EVERY k up to 700 (thorough 3000), also behind a
+// short lead of plain print tags and followed by literal padding, each rendering starting from empty
+// pools: the output is k copies of what the unit renders as a whole template.
 package main
 
 import (
 	"fmt"
-	"os"
 	"strings"
 
 	"github.com/semihalev/twig"
@@ -496,12 +500,16 @@ func main() {
 			"(literal text, one long comment, many short comments, multi-byte text with line breaks, alternating text and comments) x every total length around 1 KiB, 4 KiB (tokenizer switch), 20 KiB, 64 KiB, 100 KiB and 300 KB, " +
 			"compared with the unpadded rendering plus the visible padding; non-trivial = the template has a dash or more than one tag or an operator expression. " +
 			"B: every sequence of at most 5 (thorough 6) pieces of {{ }} {% %} {# #} - space a \\ { } 'if x' endif LF, bare vs behind 4100 bytes; non-trivial = the source contains a tag opener. " +
-			"C: every sequence of at most 5 whole tags of {{ a }} {{- a }} {{ a -}} {# c #} space x LF {% if x %} {%- if x -%} {% endif %} {%- endif -%} {% verbatim %} {% endverbatim %}, bare vs behind 4100 bytes; non-trivial = at least two pieces, one of them a tag",
+			"C: every sequence of at most 5 whole tags of {{ a }} {{- a }} {{ a -}} {# c #} space x LF {% if x %} {%- if x -%} {% endif %} {%- endif -%} {% verbatim %} {% endverbatim %}, bare vs behind 4100 bytes; non-trivial = at least two pieces, one of them a tag. " +
+			"D: every unit of {p LF {{ a }} LF q and {{ a }} with each of the 4 dash placements; p LF {{- a }} and {{ a -}} LF q (thorough: all 4 placements of both); p {% if x %} y {% endif %} q with 7 (thorough: all 16) dash placements; {# c #} alone, between texts, before {{- a }}; a for block all dashed (thorough: also undashed)} " +
+			"repeated k times for every k = 1..700 (thorough 1..3000), alone and followed by 997 or 4099 (thorough: 997 up to k = 700, 4099 up to k = 1500, 20011 up to k = 2000) bytes of literal text, and for every k = 1..300 (thorough 1..500) behind each of 6 (thorough 11) leads of plain print tags and text that shift the token positions by 3..9 (3..14); " +
+			"every rendering starts from empty pools; the output must be the lead's output, k copies of the unit's own output as a whole template, and the padding; one case = 50 consecutive k; non-trivial = the case contains a k >= 2",
 		Assumptions: []string{
 			"padding is inserted at segment boundaries only, never inside a verbatim body and never between a dashed delimiter and the whitespace it trims (nor between such a delimiter and that whitespace across comments)",
 			"the expected output of a padded template is derived from the same implementation's rendering of the unpadded template (below every threshold) with a 3-byte marker at the insertion points; the corpus model pins the unpadded rendering",
 			"for sources that fail, only the failure class (parse error / render error / panic) is compared, not the message",
 			"templates up to 300 000 bytes; larger size classes are not explored",
+			"part D: the units begin and end with a non-whitespace byte or a delimiter, so no dash reaches from one copy into the next, the lead or the padding; the pools of the engine are emptied before every rendering by two forced garbage collections (sync.Pool semantics of the Go runtime) and the case runs on one processor",
 		},
 		QuickDeadline:    150,
 		ThoroughDeadline: 870,
@@ -509,10 +517,6 @@ func main() {
 			maxLen := 5
 			if t.Thorough() {
 				maxLen = 6
-			}
-			if os.Getenv("C14_ONLY") == "rep" {
-				runRep(t)
-				return
 			}
 			runSmall(t, 0, 4)
 			runPad(t)
